@@ -275,7 +275,12 @@ pub fn read_all(bytes: &[u8], cfg: &Cfg) -> Result<BTreeMap<String, FileRead>, S
 }
 
 fn read_all_inner(bytes: &[u8], cfg: &Cfg) -> Result<BTreeMap<String, FileRead>, String> {
-    let mut r = ArchiveReader::from_config(Cursor::new(bytes), cfg.reader_config()).map_err(|e| err_class(&e))?;
+    read_all_from(Cursor::new(bytes), cfg)
+}
+
+/// same over any `Read + Seek` source (C13: throttled sources)
+pub fn read_all_from<R: Read + std::io::Seek>(src: R, cfg: &Cfg) -> Result<BTreeMap<String, FileRead>, String> {
+    let mut r = ArchiveReader::from_config(src, cfg.reader_config()).map_err(|e| err_class(&e))?;
     let names: Vec<String> = r.list_files().map_err(|e| err_class(&e))?.cloned().collect();
     let mut out = BTreeMap::new();
     for n in names {
@@ -498,13 +503,18 @@ pub fn repair(bytes: &[u8], cfg: &Cfg, authenticated: bool) -> Result<Repaired, 
 }
 
 fn repair_inner(bytes: &[u8], cfg: &Cfg, authenticated: bool) -> Result<Repaired, String> {
+    repair_from(Cursor::new(bytes), cfg, authenticated)
+}
+
+/// repair from any `Read` source (C13: throttled sources)
+pub fn repair_from<R: Read>(src: R, cfg: &Cfg, authenticated: bool) -> Result<Repaired, String> {
     let mut rc = cfg.reader_config();
     if authenticated {
         rc.failsafe_return_only_authenticated_data();
     } else {
         rc.failsafe_return_data_even_unauthenticated();
     }
-    let mut fs = ArchiveFailSafeReader::from_config(Cursor::new(bytes), rc).map_err(|e| err_class(&e))?;
+    let mut fs = ArchiveFailSafeReader::from_config(src, rc).map_err(|e| err_class(&e))?;
     let sink = Sink::default();
     let data = sink.data.clone();
     let mut out_w = ArchiveWriter::from_config(sink, ArchiveWriterConfig::new()).map_err(|e| err_class(&e))?;
